@@ -350,7 +350,13 @@ def r4_reported(ctx):
     ctx.need('R4.transceiver', 10)
 
 
-RULES = [('R1.ownership', r1_ownership), ('R2.base', r2_base), ('R3.step', r3_step), ('R4.reported', r4_reported)]
+def r5_split_merge(ctx):
+    """band split / merge neither create nor lose power: mux folds the whole list, demux selects whole channels"""
+    from .c07 import r2_fold
+    r2_fold(ctx, 'R5.split-merge')
+
+
+RULES = [('R5.split-merge', r5_split_merge), ('R1.ownership', r1_ownership), ('R2.base', r2_base), ('R3.step', r3_step), ('R4.reported', r4_reported)]
 
 
 def proof_keys(ctx):
